@@ -2,6 +2,7 @@
 and the property's own oracle evaluated on the implementation."""
 import itertools
 
+import c08_sessions
 from common import enc_str, enc_list, parse_sexp, dec_str, run_cli_mode
 
 LEVEL = "proof"
@@ -381,19 +382,31 @@ def run(ctx):
                 v.failing_input(u1_key(rr, "escape-not-inert"), f"parse({tmpl!r}, x={d!r}) = {got!r}, expected {want!r}", rr)
     ctx.stats["inertness_cases"] = n_inert
 
+    # ------------------------------------------------ HISTORIES: sequences of calls on one long-lived CellParser
+    # (every stream above hands each cell to the functions one call at a time; a real run hands all the cells of a
+    # sheet to ONE object) — harness/c08_sessions.py
+    history_samples = c08_sessions.run_sessions(ctx, nontrivial)
+
     v.coverage["distinct_nontrivial"] = len(nontrivial)
     v.coverage["exhaustive"] = True
     v.coverage["rule"] = (
         f"exhaustive: every string of length <= {maxlen} over {alpha!r} through split_by_separator (both separators), "
         "split_into_lists, cleanse, escape_string on model and implementation; enumerated + random nested values "
         "(85% well-formed by construction, 15% malformed incl. empty lists, depth 3, trailing blanks) through "
-        "join_from_lists/wfb/trim and the round-trip oracle; random long/unicode strings; templates with the escape filter. "
+        "join_from_lists/wfb/trim and the round-trip oracle; random long/unicode strings; templates with the escape filter; "
+        "HISTORIES: generated sequences of 2-15 calls of the whole API on one long-lived CellParser (plain cells on the fast path, "
+        "under a context, {{ }} templates, native {@ @} cells, failing calls, None / non-string values, the direct functions, repeated "
+        "texts, shared context objects, a second object beside it), every step compared with a fresh object, with the same call in an "
+        "isolated process, with the property's statements and with the extracted state machine cp_run (distribution: stats.histories). "
         "non-trivial = distinct string containing a backslash or an unescaped separator, or distinct well-formed list "
         "with a separator or backslash inside a leaf")
-    v.coverage["samples"] = [strings[min(len(strings) - 1, 777)], strings[-1], vals[700] if len(vals) > 700 else vals[-1], vals[-1], longs[0]]
+    v.coverage["samples"] = [strings[min(len(strings) - 1, 777)], strings[-1], vals[700] if len(vals) > 700 else vals[-1], vals[-1], longs[0]] \
+        + [dict(history=h) for h in history_samples[:2]]
     v.assumptions += [
         "str.strip() whitespace set = model's is_ws (re-enumerated on this run)",
         "Jinja2 renders {{x|escape}} by calling CellParser.escape_string (checked behaviourally here)",
+        "histories: templates outside the mini-Jinja sub-language of Tmpl/MiniJinja.v are judged on the implementation only "
+        "(fresh object / isolated process / property statements), the model answers 'unsupported' for them",
     ]
 
 
@@ -402,6 +415,8 @@ def holds(r):
     from rpft.parsers.common.cellparser import CellParser
 
     cp = CellParser()
+    if r["fn"] == "session":
+        return c08_sessions.replay_session(r)
     if r["fn"] == "roundtrip":
         x = r["value"]
         try:
